@@ -639,5 +639,29 @@ package helper
 //@ requires[C01,C15] lo <= x && x <= hi && lo < hi
 //@ ensures[C01,C15] 0 <= (x - lo) / (hi - lo) && (x - lo) / (hi - lo) <= 1
 
+//@ lemma psum_window_nonneg(a stream, lo int, hi int)
+//@ requires[C01,C15] 0 <= lo && lo <= hi && (forall j :: lo <= j && j < hi ==> a[j] >= 0)
+//@ ensures[C01,C15] psum(a, hi) - psum(a, lo) >= 0
+//@ induction hi from lo
+// 100 - 100/(1 + gain/loss) lies in [0,100] for a non-negative gain and a positive loss (RSI, MFI)
+//@ lemma osc100_range(g real, l real)
+//@ requires[C15] g >= 0 && l > 0
+//@ ensures[C15] 0 <= 100 - 100 * (1 / (1 + g / l)) && 100 - 100 * (1 / (1 + g / l)) <= 100
+
+//@ lemma psum_window_abs(a stream, b stream, lo int, hi int)
+//@ requires[C01,C15] 0 <= lo && lo <= hi && (forall j :: lo <= j && j < hi ==> 0 - b[j] <= a[j] && a[j] <= b[j])
+//@ ensures[C01,C15] 0 - (psum(b, hi) - psum(b, lo)) <= psum(a, hi) - psum(a, lo) && psum(a, hi) - psum(a, lo) <= psum(b, hi) - psum(b, lo)
+//@ induction hi from lo
+//@ lemma psum_window_le(a stream, b stream, lo int, hi int)
+//@ requires[C01,C15] 0 <= lo && lo <= hi && (forall j :: lo <= j && j < hi ==> a[j] <= b[j])
+//@ ensures[C01,C15] psum(a, hi) - psum(a, lo) <= psum(b, hi) - psum(b, lo)
+//@ induction hi from lo
+//@ lemma ratio_sym(x real, y real)
+//@ requires[C15] y > 0 && 0 - y <= x && x <= y
+//@ ensures[C15] 0 - 1 <= x / y && x / y <= 1
+//@ lemma mul_unit(m real, v real)
+//@ requires[C15] 0 - 1 <= m && m <= 1 && v >= 0
+//@ ensures[C15] 0 - v <= m * v && m * v <= v
+
 // a valid bar: low <= close <= high
 //@ macro barok(h, l, c, i) = l[i] <= c[i] && c[i] <= h[i]
